@@ -123,9 +123,10 @@ impl ParserState {
             if let Some(arr) = self.context.pop() {
                 if let Some(val_list) = self.context.last_mut() {
                     let mut map: BTreeMap<String, IppValue> = BTreeMap::new();
-                    for idx in (0..arr.len()).step_by(2) {
-                        if let (Some(IppValue::MemberAttrName(k)), Some(v)) = (arr.get(idx), arr.get(idx + 1)) {
-                            map.insert(k.to_string(), v.clone());
+                    let mut items = arr.into_iter();
+                    while let (Some(k), Some(v)) = (items.next(), items.next()) {
+                        if let IppValue::MemberAttrName(k) = k {
+                            map.insert(k, v);
                         }
                     }
                     val_list.push(IppValue::Collection(map));
